@@ -103,10 +103,37 @@ Print Assumptions C14_sweep_complete.
    that are acyclic in the sense that matters.
 
    [mentions cfg s]: the definitions the snippet text [s] refers to = every node, at any depth, of [s] as
-   resolve() parses it whose name is a key of the table with a non-empty value.
-   [acyclic_from cfg d] (bool): the depth-first walk along [mentions] from [d] never meets a definition
-   that is on its own path -- the situation in which the cycle guard would cut -- within |snippets|
-   levels.  [acyclic_table cfg] = [acyclic_from] for every value of the table. *)
+   resolve() parses it whose name is a key of the table with a non-empty value; [reaches] = its transitive
+   closure.  Decidable predicates (bool), each computed by the depth-first walk the resolver itself does,
+   with its guard stack as the path and its bound |snippets| as fuel:
+     self_free cfg d      the walk from the definition d, resolved in place, never asks the guard about d
+                          = d does not reach itself                          (the hypothesis of the theorems)
+     acyclic_from cfg d   the walk from d never meets a definition on its own path
+                          = nothing reachable from d lies on a cycle         (stronger)
+     acyclic_table cfg    acyclic_from for every value = no value reaches itself   (strongest)
+   A cycle that does not pass through d (`a` = `a[href]` below a definition that mentions `a`) is cut at
+   the same point on both sides and does no harm (C14_self_free_weaker). *)
+
+(* the hypothesis of the theorems below, exactly: the definition does not reach itself through the names
+   it mentions *)
+Theorem C14_self_free_means :
+  forall (cfg : mconfig) (d : str), self_free cfg d = true <-> ~ reaches cfg d d.
+Proof. exact self_free_spec. Qed.
+Print Assumptions C14_self_free_means.
+
+Theorem C14_acyclic_from_self_free :
+  forall (cfg : mconfig) (d : str), acyclic_from cfg d = true -> self_free cfg d = true.
+Proof. exact self_free_of_acyclic_from. Qed.
+Print Assumptions C14_acyclic_from_self_free.
+
+(* a guard-stack entry the walk never asks about can be dropped, at any fuel: the lemma behind
+   "the definition below its alias (stack [d]) resolves as the definition in place (stack [])" *)
+Theorem C14_guard_entry_dropped :
+  forall (cfg : mconfig) (d : str) (fuel f : nat) (st : list str) (l : list anode),
+    forallb (nohit f cfg d st) (forest_defs cfg l) = true ->
+    walk_resolve fuel cfg (st ++ [d]) l = walk_resolve fuel cfg st l.
+Proof. exact walk_stack_drop. Qed.
+Print Assumptions C14_guard_entry_dropped.
 
 (* the decidable predicates say: no snippet value reaches itself through the names it mentions *)
 Theorem C14_acyclic_table_means :
@@ -139,8 +166,8 @@ Theorem C14_key_is_one_node :
 Proof. exact parse_abbr_key. Qed.
 Print Assumptions C14_key_is_one_node.
 
-(* THE statement: for EVERY snippet table, every key k with definition d from which the table is
-   acyclic, every configuration without wrap text in which the definition text reads the same in the
+(* THE statement: for EVERY snippet table, every key k whose definition d does not reach itself
+   (self_free), every configuration without wrap text in which the definition text reads the same in the
    abbreviation as in the table (same_reading: resolve() parses definitions with jsx off and
    user_config['max_repeat']): the resolved and transformed tree of `k` is that of `d`.
    (resolve_def = parse the definition + resolve it at top level with the empty guard stack and the
@@ -148,7 +175,7 @@ Print Assumptions C14_key_is_one_node.
 Theorem C14_alias_eq_definition :
   forall (cfg : mconfig) (k d : str),
     key_text k = true ->
-    def_of cfg (Some k) = Some d -> acyclic_from cfg d = true ->
+    def_of cfg (Some k) = Some d -> self_free cfg d = true ->
     mc_text cfg = WNone -> same_reading cfg d ->
     markup_parse cfg k = markup_parse cfg d.
 Proof. exact alias_eq_definition. Qed.
@@ -158,11 +185,20 @@ Print Assumptions C14_alias_eq_definition.
 Theorem C14_alias_eq_definition_expand :
   forall (x : xconfig) (k d : str),
     key_text k = true ->
-    def_of (xc_m x) (Some k) = Some d -> acyclic_from (xc_m x) d = true ->
+    def_of (xc_m x) (Some k) = Some d -> self_free (xc_m x) d = true ->
     mc_text (xc_m x) = WNone -> same_reading (xc_m x) d ->
     expand_markup_str x k = expand_markup_str x d.
 Proof. exact alias_eq_definition_expand. Qed.
 Print Assumptions C14_alias_eq_definition_expand.
+
+(* the same with the semantic hypothesis *)
+Theorem C14_alias_eq_definition_not_reaching :
+  forall (cfg : mconfig) (k d : str),
+    key_text k = true -> def_of cfg (Some k) = Some d -> ~ reaches cfg d d ->
+    mc_text cfg = WNone -> same_reading cfg d ->
+    markup_parse cfg k = markup_parse cfg d.
+Proof. exact alias_eq_definition_not_reaching. Qed.
+Print Assumptions C14_alias_eq_definition_not_reaching.
 
 (* configuration-level form: every key of an acyclic table, jsx off, no wrap text, one max_repeat *)
 Theorem C14_alias_eq_definition_table :
@@ -175,12 +211,12 @@ Proof. exact alias_eq_definition_table. Qed.
 Print Assumptions C14_alias_eq_definition_table.
 
 (* the decorated alias, as a theorem about walk_resolve at the top level of an abbreviation (guard stack
-   empty, full fuel), for all tables acyclic from d: the definition RESOLVED IN PLACE, each top-level
+   empty, full fuel), for all tables in which d does not reach itself: the definition RESOLVED IN PLACE, each top-level
    node merged with the alias, the alias' resolved children under find_deepest; a definition that
    resolves to the empty forest drops the alias and its children (deepest is the Abbreviation itself) *)
 Theorem C14_alias_decorated :
   forall (cfg : mconfig) (k d : str) v rp at_ ch sc,
-    def_of cfg (Some k) = Some d -> acyclic_from cfg d = true ->
+    def_of cfg (Some k) = Some d -> self_free cfg d = true ->
     walk_resolve (full_fuel cfg) cfg [] [ANode (Some k) v rp at_ ch sc] =
     let* resolved := resolve_def cfg d in
     let tops := map (merge_into (mc_reverse_attrs cfg) (ANode (Some k) v rp at_ ch sc)) resolved in
@@ -195,7 +231,7 @@ Print Assumptions C14_alias_decorated.
    top-level node; under reverseAttributes they are put in FRONT of the definition's own *)
 Theorem C14_alias_attributes :
   forall (cfg : mconfig) (k d : str) a at_,
-    def_of cfg (Some k) = Some d -> acyclic_from cfg d = true ->
+    def_of cfg (Some k) = Some d -> self_free cfg d = true ->
     walk_resolve (full_fuel cfg) cfg [] [ANode (Some k) None None (Some (a :: at_)) [] false] =
     let* resolved := resolve_def cfg d in Ok (map (add_attrs (mc_reverse_attrs cfg) (a :: at_)) resolved).
 Proof. exact alias_attributes. Qed.
@@ -204,7 +240,7 @@ Print Assumptions C14_alias_attributes.
 (* `k*N`: each copy of the alias is replaced by the definition's top-level nodes carrying its repeater *)
 Theorem C14_alias_repeat :
   forall (cfg : mconfig) (k d : str) r,
-    def_of cfg (Some k) = Some d -> acyclic_from cfg d = true ->
+    def_of cfg (Some k) = Some d -> self_free cfg d = true ->
     walk_resolve (full_fuel cfg) cfg [] [ANode (Some k) None (Some r) None [] false] =
     let* resolved := resolve_def cfg d in Ok (map (set_repeat r) resolved).
 Proof. exact alias_repeat. Qed.
@@ -213,7 +249,7 @@ Print Assumptions C14_alias_repeat.
 (* `k{text}`: the text replaces the value of each top-level node; `k/`: each is self-closing *)
 Theorem C14_alias_text :
   forall (cfg : mconfig) (k d : str) x,
-    def_of cfg (Some k) = Some d -> acyclic_from cfg d = true ->
+    def_of cfg (Some k) = Some d -> self_free cfg d = true ->
     walk_resolve (full_fuel cfg) cfg [] [ANode (Some k) (Some x) None None [] false] =
     let* resolved := resolve_def cfg d in Ok (map (set_value x) resolved).
 Proof. exact alias_text. Qed.
@@ -221,7 +257,7 @@ Print Assumptions C14_alias_text.
 
 Theorem C14_alias_self_closing :
   forall (cfg : mconfig) (k d : str),
-    def_of cfg (Some k) = Some d -> acyclic_from cfg d = true ->
+    def_of cfg (Some k) = Some d -> self_free cfg d = true ->
     walk_resolve (full_fuel cfg) cfg [] [ANode (Some k) None None None [] true] =
     let* resolved := resolve_def cfg d in Ok (map set_self resolved).
 Proof. exact alias_self_closing. Qed.
@@ -231,7 +267,7 @@ Print Assumptions C14_alias_self_closing.
    last-child chain of its last top-level node (whatever that node is: element or text node) *)
 Theorem C14_alias_children :
   forall (cfg : mconfig) (k d : str) ch,
-    def_of cfg (Some k) = Some d -> acyclic_from cfg d = true ->
+    def_of cfg (Some k) = Some d -> self_free cfg d = true ->
     walk_resolve (full_fuel cfg) cfg [] [ANode (Some k) None None None ch false] =
     let* resolved := resolve_def cfg d in
     match resolved with
@@ -258,7 +294,7 @@ Print Assumptions C14_resolve_siblings.
 Theorem C14_cyclic_cut_refuted :
   key_text [97]%N = true /\ def_of cyc_cfg (Some [97]%N) = Some [98;46;120]%N /\
   same_reading cyc_cfg [98;46;120]%N /\ mc_text cyc_cfg = WNone /\
-  acyclic_from cyc_cfg [98;46;120]%N = false /\
+  self_free cyc_cfg [98;46;120]%N = false /\
   (exists t1 t2, markup_parse cyc_cfg [97]%N = Ok t1 /\ markup_parse cyc_cfg [98;46;120]%N = Ok t2 /\ t1 <> t2).
 Proof. exact cyclic_cut_refuted. Qed.
 Print Assumptions C14_cyclic_cut_refuted.
@@ -266,10 +302,18 @@ Print Assumptions C14_cyclic_cut_refuted.
 (* the reason for `mc_text cfg = WNone`: with text = '' (or []) the converter writes the empty text on the
    alias node, and that value replaces the definition's text: x = `p{hi}` gives <p></p>, `p{hi}` gives <p>hi</p> *)
 Theorem C14_empty_text_differs :
-  acyclic_from txt_cfg [112;123;104;105;125]%N = true /\
+  self_free txt_cfg [112;123;104;105;125]%N = true /\
   (exists t1 t2, markup_parse txt_cfg [120]%N = Ok t1 /\ markup_parse txt_cfg [112;123;104;105;125]%N = Ok t2 /\ t1 <> t2).
 Proof. exact empty_text_differs. Qed.
 Print Assumptions C14_empty_text_differs.
+
+(* a cycle elsewhere is harmless: f = `a.x>b`, a = `a[href]` (the shape of the built-in a, img, link ...):
+   not acyclic from f's definition, but that definition does not reach itself, and alias = definition *)
+Theorem C14_self_free_weaker :
+  acyclic_from loop_cfg [97;46;120;62;98]%N = false /\ self_free loop_cfg [97;46;120;62;98]%N = true /\
+  exists t, markup_parse loop_cfg [102]%N = Ok t /\ markup_parse loop_cfg [97;46;120;62;98]%N = Ok t /\ length t = 1.
+Proof. exact self_free_weaker. Qed.
+Print Assumptions C14_self_free_weaker.
 
 (* non-vacuity of the acyclic theorem: nested aliases, a two-node definition, a key with `:` *)
 Example C14_acyclic_nonvacuous :
